@@ -415,6 +415,35 @@ def run_history(acc, rng, hist_seed):
                 texts = dict(disk)
                 texts.update(open_bufs)
                 check_wellformed(acc, m, resp, texts, pr, w)
+        # ---- a few requests that only read, directly in front of the comparison (no buffer changes behind them that would make
+        #      the server analyse again): a rename that is not applied, outline requests, at identifiers of the open main file
+        if "main.asm" in open_bufs:
+            text = open_bufs["main.asm"]
+            idents = [(mm.start(), mm.group(0)) for mm in re.finditer(r"[A-Za-z_][A-Za-z0-9_]*", text)]
+            for _ in range(rng.randrange(0, 4)):
+                m = rng.choice(["textDocument/rename", "textDocument/rename", "textDocument/documentSymbol", "workspace/symbol", "textDocument/prepareRename", "textDocument/completion"])
+                if m in ("textDocument/documentSymbol", "workspace/symbol"):
+                    resp = pr.srv.request(m, {"query": rng.choice(["", "lib", "a"])} if m == "workspace/symbol" else doc_params(m, pr.uri("main.asm")))
+                    events.append((m, "main.asm", "document", 0, 0))
+                elif idents:
+                    lib_ids = [x for x in idents if x[1].startswith("lib")]
+                    off, word = rng.choice(lib_ids if lib_ids and rng.random() < 0.6 else idents)
+                    ln = text.count("\n", 0, off)
+                    ch = off - (text.rfind("\n", 0, off) + 1) + rng.randrange(0, len(word))
+                    ch = len(text[text.rfind("\n", 0, off) + 1:text.rfind("\n", 0, off) + 1 + ch].encode("utf-16-le")) // 2
+                    resp = pr.srv.request(m, params_for(m, pr.uri("main.asm"), ln, ch))
+                    events.append((m, "main.asm", "identifier-before-comparison", ln, ch))
+                    if m == "textDocument/rename" and isinstance(resp, dict) and resp.get("result"):
+                        flags.add("rename-request")
+                else:
+                    continue
+                acc.evaluations += 1
+                if isinstance(resp, dict) and "dead" in resp:
+                    err = pr.srv.stderr[-400:].decode("utf8", "replace")
+                    mm2 = re.search(r"panicked at ([^\n:]+):\d+", err)
+                    acc.violation("server-died|%s|identifier-before-comparison|open|%s" % (m.split("/")[-1], mm2.group(1) if mm2 else "exit %s" % resp["dead"]),
+                                  "%s killed the server: %s" % (m, err[-200:].replace("\n", " | ")), {"disk": disk, "open_buffers": dict(open_bufs), "events": events[-12:]})
+                    return
         # ---- history independence: the same battery to the edited server and to two fresh ones
         acc.count("histories_completed")
         pr.srv.barrier()
